@@ -77,4 +77,6 @@ mod utils;
 
 #[cfg(feature = "ram_bundle")]
 pub mod ram_bundle;
+#[cfg(sourcemap_verif)]
+pub mod verif_hooks;
 pub mod vlq;
